@@ -43,3 +43,7 @@ def run(repo, res, tier):
     common.token_wsc_rule(repo, res)
     from .. import langrules
     langrules.rule_wsc_lang(repo, res, langrules.analyse(repo))
+    # once a comment is open only its own end text changes the preservation state (explicit-state exploration of the
+    # character-step function over the delimiter characters of every grammar's comment table)
+    from .. import lexsim
+    lexsim.rule_comment_kind(repo, res)
